@@ -94,16 +94,16 @@ Section Env.
   | FmtTuple (name : string) (fields : list V)                 (* f.debug_tuple(name).field(v)...finish() *)
   | FmtDelegate (v : V).                                       (* Debug::fmt(v, f) *)
 
-  (** `::core::stringify!(member)` *)
+  (** `::core::stringify!(member)`, the member un-raw'd *)
   Definition member_text (m : member) : string :=
-    match m with MNamed s => s | MIndex _ => "" end.
+    match m with MNamed s => unraw s | MIndex _ => "" end.
 
   Definition eval_debug_body (d : debug_body) (a : value V) : fmt_calls :=
     match d with
     | DbgTransparent f => FmtDelegate (v_field a (fl_index f))
     | DbgFields name ShNamed fs =>
-        FmtStruct name (map (fun f => (member_text (fl_member f), v_field a (fl_index f))) fs)
-    | DbgFields name _ fs => FmtTuple name (map (fun f => v_field a (fl_index f)) fs)
+        FmtStruct (unraw name) (map (fun f => (member_text (fl_member f), v_field a (fl_index f))) fs)
+    | DbgFields name _ fs => FmtTuple (unraw name) (map (fun f => v_field a (fl_index f)) fs)
     end.
 
   Definition eval_fmt (b : body) (a : value V) : option fmt_calls :=
